@@ -248,6 +248,8 @@ def child(c, cx):
 def tag_name(t, cx):
     k = t["k"]
     if k in ("html", "custom"):
+        if t.get("bound"):
+            cx.bind(t["name"], t["rv"])
         return t["name"]
     if k == "comp":
         if t["bound"]:
